@@ -7,11 +7,16 @@ Mode == IF "MODE" \in DOMAIN IOEnv THEN IOEnv.MODE ELSE "flat"
 Stride == IF "STRIDE" \in DOMAIN IOEnv THEN atoi(IOEnv.STRIDE) ELSE 1
 Offset == IF "OFFSET" \in DOMAIN IOEnv THEN atoi(IOEnv.OFFSET) ELSE 0
 VARIABLES kind, pi, ci, si, wi
+SibStride == IF "SIBSTRIDE" \in DOMAIN IOEnv THEN atoi(IOEnv.SIBSTRIDE) ELSE 1
 InitFlat ==
-  /\ si = 0 /\ wi = 0
-  /\ \/ kind = "expr" /\ pi \in 1..Len(ExprPositions) /\ ci \in 1..Len(ExprConstructs)
-     \/ kind = "stmt" /\ pi \in 1..Len(StmtPositions) /\ ci \in 1..Len(StmtConstructs)
-     \/ kind = "expr-in-stmt" /\ pi \in 1..Len(StmtPositions) /\ ci \in 1..Len(ExprConstructs)
+  \/ /\ si = 0 /\ wi = 0
+     /\ \/ kind = "expr" /\ pi \in 1..Len(ExprPositions) /\ ci \in 1..Len(ExprConstructs)
+        \/ kind = "stmt" /\ pi \in 1..Len(StmtPositions) /\ ci \in 1..Len(StmtConstructs)
+        \/ kind = "expr-in-stmt" /\ pi \in 1..Len(StmtPositions) /\ ci \in 1..Len(ExprConstructs)
+  \* a sibling statement before (si = 1) / after (si = 2) the construct; wi = the sibling
+  \/ /\ kind = "sib" /\ pi \in SibPositions /\ ci \in 1..Len(StmtConstructs) /\ wi \in 1..Len(Siblings) /\ si \in {1, 2}
+     /\ (pi * 7919 + ci * 104729 + wi * 1299709 + si * 15485863) % SibStride = Offset % SibStride
+  \/ /\ kind = "sibcont" /\ pi \in SibPositions /\ ci \in 1..Len(SibContinue) /\ wi \in 1..Len(Siblings) /\ si = 0
 InitDeep ==
   /\ kind = "deep"
   /\ si \in 1..Len(StmtPositions) /\ pi \in 1..Len(ExprPositions) /\ wi \in 1..Len(Wrappers) /\ ci \in 1..Len(ExprConstructs)
@@ -19,9 +24,11 @@ InitDeep ==
   /\ (IsReturnPos(ExprPositions[pi]) => si = 1)          \* a `return` ends its block: only at the top level
 Init == IF Mode = "deep" THEN InitDeep ELSE InitFlat
 Next == UNCHANGED <<kind, pi, ci, si, wi>>
-Construct == IF kind = "stmt" THEN StmtConstructs[ci][1] ELSE ExprConstructs[ci][1]
+Construct == IF kind \in {"stmt", "sib"} THEN StmtConstructs[ci][1] ELSE IF kind = "sibcont" THEN "continue_stmt" ELSE ExprConstructs[ci][1]
 Src == IF kind = "expr" THEN ExprCase(ExprPositions[pi], ExprConstructs[ci][2])
        ELSE IF kind = "stmt" THEN StmtCase(StmtPositions[pi], StmtConstructs[ci][2])
+       ELSE IF kind = "sib" THEN SibCase(StmtPositions[pi], Siblings[wi], StmtConstructs[ci][2], si)
+       ELSE IF kind = "sibcont" THEN SibContCase(StmtPositions[pi], Siblings[wi], SibContinue[ci])
        ELSE IF kind = "deep" THEN DeepCase(StmtPositions[si], ExprPositions[pi], Wrappers[wi], ExprConstructs[ci][2])
        ELSE ExprInStmtCase(StmtPositions[pi], ExprConstructs[ci][2])
 Emit == PrintT("CASE " \o ToJson([kind |-> kind, position |-> pi, construct_index |-> ci, construct |-> Construct, src |-> Src, stmt_position |-> si, wrapper |-> wi]))
